@@ -5,10 +5,18 @@
 //! `!is_complete()`, `handle_source_removed` for sources that exist, each removed once) with DNS
 //! answers scripted through the interposed resolver (`w_dns`). The oracle is a model of the
 //! *active* set reconstructed from the SpawnEvent stream minus the removals.
+//!
+//! About a quarter of the cases drive the real `NtsPoolSpawner` instead (`Case::NtsPool`): the pool is
+//! "resolved" through key exchanges with a scripted in-process NTS-KE server on a loopback TCP port
+//! (`w_ntsked`), whose per-exchange answers (server name / IP literal / none, port, cookies, errors,
+//! closes, stalls) and the DNS answers for the handed-out names come from the case.
 use std::net::{IpAddr, Ipv4Addr, Ipv6Addr, SocketAddr};
+use std::sync::Arc;
+use std::sync::atomic::{AtomicUsize, Ordering};
 
 use crate::engine::*;
 use crate::w_dns::{self, Answer};
+use crate::w_ntsked::{self, KeAnswer, KeDns, NDns, Reply, Srv};
 use ntp_proto::{ClockId, ProtocolVersion, SourceConfig};
 use ntpd::verif_hook::spawn_hook as sh;
 use proptest::prelude::*;
@@ -52,7 +60,7 @@ pub enum Op {
 }
 
 #[derive(Debug, Clone, Serialize, Deserialize)]
-pub struct Case {
+pub struct PlainCase {
     pub count: usize,
     pub port: u16,
     /// ignored addresses (universe indices)
@@ -60,6 +68,30 @@ pub struct Case {
     /// answer of lookup k is `answers[k % len]`
     pub answers: Vec<Dns>,
     pub ops: Vec<Op>,
+}
+
+/// NTS pool: the pool members come from key exchanges with a scripted KE server
+#[derive(Debug, Clone, Serialize, Deserialize)]
+pub struct NtsPoolCase {
+    pub count: usize,
+    /// the KE server avoids names the client lists as already in use (like a real pool KE server)
+    pub honor_deny: bool,
+    /// resolver answers for the KE host name (lookup k gets `ke_dns[k % len]`)
+    pub ke_dns: Vec<KeDns>,
+    /// answer of key exchange k is `ke[k % len]`
+    pub ke: Vec<KeAnswer>,
+    /// resolver answers for the NTP server name `w_ntsked::NTP_NAMES[i]` (lookup k gets `hosts[i][k % len]`)
+    pub hosts: Vec<Vec<NDns>>,
+    pub ops: Vec<Op>,
+}
+
+/// Untagged: replay files written before the NTS variant existed are plain pool cases (`answers`/`ignore`
+/// fields), NTS pool cases are recognised by their `ke`/`hosts` fields.
+#[derive(Debug, Clone, Serialize, Deserialize)]
+#[serde(untagged)]
+pub enum Case {
+    Plain(PlainCase),
+    NtsPool(NtsPoolCase),
 }
 
 fn reason(r: u8) -> sh::SourceRemovalReason {
@@ -126,35 +158,51 @@ impl Property for C35 {
     const RULE: &'static str = "count 1..=5, ignore list and per-lookup DNS answers (success lists with duplicates / NoName / Again) drawn over an \
         8-address universe (127.0.0.0/8 and ::1), ops = vec(Spawn | Remove{which,reason} | RemoveAll, 0..60) interpreted against the real \
         PoolSpawner; NON-TRIVIAL = at least two sources were created and at least one source was created after a removal (the bookkeeping of \
-        unused resolved addresses was exercised across rounds)";
+        unused resolved addresses was exercised across rounds). One case in four drives the real NtsPoolSpawner instead: count 1..=4, a scripted \
+        loopback NTS-KE server (per exchange: preference list of server names / IP literals / none, port, 0..9 cookies, error record, close, TCP drop, \
+        stall beyond the exchange timeout; it honours the client's denied-server list or not), per-lookup DNS answers for the KE name and the four NTP \
+        names (half of the cases alias-free: one fixed address per name; otherwise overlapping, changing lists), same op sequences (0..20); same \
+        NON-TRIVIAL rule";
     const ASSUMPTIONS: &'static [&'static str] = &[
         "the system removes only sources that this spawner created and each of them once (system.rs removes the source from its map first)",
         "try_spawn is only called while !is_complete(), as spawner_task does",
         "the resolver is the interposed getaddrinfo: a successful lookup has >= 1 address; an empty list is reported as EAI_NONAME",
         "'same server address' = equal SocketAddr (the port is the configured one for every address)",
+        "NTS pool: 'same server address' = equal resolved SocketAddr of the NTP server (name given by the KE server resolved through DNS, port from the KE answer or 123); an NTS pool has no ignore list; enable-srv-resolution is off (the SRV path needs a real DNS server)",
+        "NTS pool: real TCP/TLS on 127.0.0.1 under a paused tokio clock that is kept from auto-advancing while try_spawn runs; the only virtual time that passes is the scripted stall beyond the 5 s key exchange timeout",
     ];
     const QUICK_CASES: u32 = 16_000;
     const THOROUGH_CASES: u32 = 300_000;
 
     fn strategy(tier: Tier) -> BoxedStrategy<Case> {
         let max_ops = tier.pick(60usize, 120usize);
-        (
+        let plain = (
             1usize..=5,
             prop_oneof![3 => Just(123u16), 1 => any::<u16>()],
             prop::collection::vec(0u8..8, 0..4),
             prop::collection::vec(dns_strategy(), 1..5),
             prop::collection::vec(op_strategy(), 0..max_ops),
         )
-            .prop_map(|(count, port, ignore, answers, ops)| Case { count, port, ignore, answers, ops })
-            .boxed()
+            .prop_map(|(count, port, ignore, answers, ops)| Case::Plain(PlainCase { count, port, ignore, answers, ops }));
+        // debugging aid (sensitivity runs of one driver): VERIF_ONLY_MODE=nts|plain
+        match std::env::var("VERIF_ONLY_MODE").ok().as_deref() {
+            Some("nts") => return nts_pool_strategy(tier).prop_map(Case::NtsPool).boxed(),
+            Some("plain") => return plain.boxed(),
+            _ => {}
+        }
+        prop_oneof![
+            3 => plain,
+            1 => nts_pool_strategy(tier).prop_map(Case::NtsPool),
+        ]
+        .boxed()
     }
 
     fn enumerate(_tier: Tier) -> Vec<Case> {
         if std::env::var_os("VERIF_NO_ENUM").is_some() { return vec![]; }
         let ra = |newest_first| Op::RemoveAll { newest_first, reason: 0 };
-        vec![
+        let plain: Vec<PlainCase> = vec![
             // the design probe: ordinary answer [A,B,C] on every lookup, count 2, remove both each round
-            Case {
+            PlainCase {
                 count: 2,
                 port: 123,
                 ignore: vec![],
@@ -162,7 +210,7 @@ impl Property for C35 {
                 ops: vec![Op::Spawn, ra(false), Op::Spawn, ra(false), Op::Spawn, ra(true), Op::Spawn],
             },
             // duplicate inside one answer
-            Case {
+            PlainCase {
                 count: 2,
                 port: 123,
                 ignore: vec![],
@@ -170,19 +218,57 @@ impl Property for C35 {
                 ops: vec![Op::Spawn],
             },
             // ignored address mixed into the answers, several rounds
-            Case {
+            PlainCase {
                 count: 3,
                 port: 123,
                 ignore: vec![1],
                 answers: vec![Dns::Addrs(vec![0, 1, 2, 3]), Dns::Addrs(vec![1, 1, 4])],
                 ops: vec![Op::Spawn, Op::Remove { which: 0, reason: 1 }, Op::Spawn, ra(true), Op::Spawn, Op::Spawn],
             },
-        ]
+        ];
+        let ok = |servers: Vec<Srv>| KeAnswer::Ok { servers, port: None, cookies: 8, delay_ms: 0 };
+        let one_to_one: Vec<Vec<NDns>> = (0u8..4).map(|i| vec![NDns::Addrs(vec![i])]).collect();
+        let nts: Vec<NtsPoolCase> = vec![
+            // a well-behaved pool KE server: four distinct names with distinct addresses, refill after removals
+            NtsPoolCase {
+                count: 3,
+                honor_deny: true,
+                ke_dns: vec![KeDns::Listen],
+                ke: vec![ok(vec![Srv::Name(0), Srv::Name(1), Srv::Name(2), Srv::Name(3)])],
+                hosts: one_to_one.clone(),
+                ops: vec![Op::Spawn, Op::Remove { which: 1, reason: 0 }, Op::Spawn, ra(false), Op::Spawn, Op::Spawn],
+            },
+            // a KE server that ignores the denied list and keeps naming the same server
+            NtsPoolCase {
+                count: 2,
+                honor_deny: false,
+                ke_dns: vec![KeDns::Listen],
+                ke: vec![ok(vec![Srv::Name(0)]), ok(vec![Srv::Name(0)]), ok(vec![Srv::Name(1)])],
+                hosts: one_to_one.clone(),
+                ops: vec![Op::Spawn, Op::Spawn, Op::Remove { which: 0, reason: 1 }, Op::Spawn, Op::Spawn],
+            },
+            // two different names for one and the same server address
+            NtsPoolCase {
+                count: 2,
+                honor_deny: true,
+                ke_dns: vec![KeDns::Listen],
+                ke: vec![ok(vec![Srv::Name(0), Srv::Name(1)])],
+                hosts: vec![vec![NDns::Addrs(vec![2])], vec![NDns::Addrs(vec![2])]],
+                ops: vec![Op::Spawn, Op::Spawn],
+            },
+        ];
+        plain.into_iter().map(Case::Plain).chain(nts.into_iter().map(Case::NtsPool)).collect()
     }
 
     fn check(case: &Case) -> Outcome {
         interposition_selftest();
-        crate::rt::run_real(run(case))
+        match case {
+            Case::Plain(c) => crate::rt::run_real(run(c)),
+            Case::NtsPool(c) => {
+                w_ntsked::selftest();
+                crate::rt::run_paused(run_nts(c))
+            }
+        }
     }
 }
 
@@ -191,7 +277,7 @@ struct Active {
     addr: SocketAddr,
 }
 
-async fn run(case: &Case) -> Outcome {
+async fn run(case: &PlainCase) -> Outcome {
     let mut labels = Labels::default();
     w_dns::reset();
     w_dns::script(HOST, case.answers.iter().map(to_answer).collect());
@@ -304,6 +390,266 @@ async fn run(case: &Case) -> Outcome {
     labels.add_if(created_after_removal > 0, "refill-after-removal");
     labels.add_if(w_dns::calls(HOST) >= 2, "multi-lookup");
     labels.add_if(spawn_rounds == 0, "no-spawn-round");
+    let nontrivial = created >= 2 && created_after_removal >= 1;
+    Outcome::pass(nontrivial).labels(labels.0)
+}
+
+// ---------------------------------------------------------------------------------------------
+// NTS pool: members come from key exchanges with the scripted KE server of `w_ntsked`
+
+pub fn srv_strategy(alias_free: bool) -> BoxedStrategy<Srv> {
+    if alias_free {
+        // names 0..4 resolve to ip(0)..ip(3) in the alias-free DNS table, literals use ip(4), ip(5)
+        prop_oneof![8 => (0u8..4).prop_map(Srv::Name), 1 => (4u8..6).prop_map(Srv::Literal)].boxed()
+    } else {
+        prop_oneof![7 => (0u8..4).prop_map(Srv::Name), 1 => Just(Srv::Absent), 1 => (0u8..6).prop_map(Srv::Literal)].boxed()
+    }
+}
+
+pub fn ke_answer_strategy(alias_free: bool, delays: bool) -> BoxedStrategy<KeAnswer> {
+    let delay = if delays {
+        prop_oneof![
+            4 => Just(0u32),
+            2 => 1u32..20,
+            2 => prop::sample::select(vec![999u32, 1000, 1001, 2500, 4999, 5000, 5001]),
+            1 => 0u32..6000,
+        ]
+        .boxed()
+    } else {
+        Just(0u32).boxed()
+    };
+    prop_oneof![
+        14 => (
+            prop::collection::vec(srv_strategy(alias_free), 1..4),
+            prop_oneof![3 => Just(None), 3 => Just(Some(123u16)), 1 => Just(Some(124u16)), 1 => any::<u16>().prop_map(Some)],
+            prop_oneof![8 => 1u8..=9, 1 => Just(0u8)],
+            delay,
+        )
+            .prop_map(|(servers, port, cookies, delay_ms)| KeAnswer::Ok { servers, port, cookies, delay_ms }),
+        1 => prop::sample::select(vec![0u16, 1, 2]).prop_map(KeAnswer::ErrorRecord),
+        1 => Just(KeAnswer::CloseAfterRequest),
+        1 => Just(KeAnswer::DropTcp),
+        1 => Just(KeAnswer::Stall),
+    ]
+    .boxed()
+}
+
+pub fn ke_dns_strategy() -> impl Strategy<Value = Vec<KeDns>> {
+    prop::collection::vec(
+        prop_oneof![
+            10 => Just(KeDns::Listen),
+            2 => Just(KeDns::DeadThenListen),
+            1 => Just(KeDns::Dead),
+            1 => Just(KeDns::NoName),
+            1 => Just(KeDns::Again),
+        ],
+        1..4,
+    )
+}
+
+/// DNS table for the NTP names: alias-free (name i <-> ip(i), always) or arbitrary (overlapping address
+/// lists that may change from lookup to lookup, failures)
+pub fn hosts_strategy(alias_free: bool) -> BoxedStrategy<Vec<Vec<NDns>>> {
+    if alias_free {
+        Just((0u8..4).map(|i| vec![NDns::Addrs(vec![i])]).collect::<Vec<_>>()).boxed()
+    } else {
+        let ndns = prop_oneof![
+            10 => prop::collection::vec(0u8..6, 1..4).prop_map(NDns::Addrs),
+            1 => Just(NDns::NoName),
+            1 => Just(NDns::Again),
+        ];
+        prop::collection::vec(prop::collection::vec(ndns, 1..3), 4).boxed()
+    }
+}
+
+fn nts_pool_strategy(tier: Tier) -> impl Strategy<Value = NtsPoolCase> {
+    let max_ops = tier.pick(20usize, 48usize);
+    any::<bool>().prop_flat_map(move |alias_free| {
+        (
+            1usize..=4,
+            prop_oneof![3 => Just(true), 1 => Just(false)],
+            ke_dns_strategy(),
+            prop::collection::vec(ke_answer_strategy(alias_free, false), 1..6),
+            hosts_strategy(alias_free),
+            prop::collection::vec(op_strategy(), 0..max_ops),
+        )
+            .prop_map(|(count, honor_deny, ke_dns, ke, hosts, ops)| NtsPoolCase { count, honor_deny, ke_dns, ke, hosts, ops })
+    })
+}
+
+struct NtsActive {
+    id: ClockId,
+    addr: SocketAddr,
+    /// the server name (or literal) of the key exchange that produced this source, if it could be attributed
+    name: Option<String>,
+}
+
+async fn run_nts(case: &NtsPoolCase) -> Outcome {
+    use std::time::Duration;
+    use tokio::time::Instant;
+    let mut labels = Labels::default();
+    labels.add("nts-pool");
+    w_dns::reset();
+    w_ntsked::script_dns(&case.ke_dns, &case.hosts);
+
+    let t0 = Instant::now();
+    let (tx, mut rx) = tokio::sync::mpsc::channel::<sh::SpawnEvent>(sh::MESSAGE_BUFFER_SIZE);
+    // number of create events the spawner has emitted so far (drained + still queued), sampled by the KE
+    // server when it accepts a connection: attributes sources to exchanges
+    let drained = Arc::new(AtomicUsize::new(0));
+    let probe: w_ntsked::Probe = {
+        let tx = tx.clone();
+        let drained = drained.clone();
+        Arc::new(move || drained.load(Ordering::SeqCst) + (tx.max_capacity() - tx.capacity()))
+    };
+    let server = match w_ntsked::start(case.ke.clone(), case.honor_deny, t0, Some(probe)).await {
+        Ok(s) => s,
+        Err(e) => {
+            eprintln!("INCONCLUSIVE: cannot start the loopback NTS-KE server: {e}");
+            std::process::exit(2);
+        }
+    };
+    let cfg = sh::NtsPoolSourceConfig {
+        addr: sh::NtsKeAddress(sh::normalized_address(w_ntsked::KE_HOST, server.port)),
+        enable_srv_resolution: false,
+        certificate_authorities: w_ntsked::test_cas(),
+        count: case.count,
+        ntp_version: ProtocolVersion::V4,
+    };
+    let mut pool = match sh::NtsPoolSpawner::new(cfg, SourceConfig::default()) {
+        Ok(p) => w_ntsked::Spin { inner: p },
+        Err(e) => return Outcome::fail("nts-pool/spawner-config-rejected", format!("NtsPoolSpawner::new: {e}")),
+    };
+
+    let mut active: Vec<NtsActive> = Vec::new();
+    let mut created = 0usize;
+    let mut removed_any = false;
+    let mut created_after_removal = 0usize;
+    let mut spawn_rounds = 0usize;
+    // virtual-time limit of one spawn round: every exchange is limited to NTS_TIMEOUT by the spawner
+    let round_limit = Duration::from_millis((w_ntsked::NTS_TIMEOUT_MS + 1000) * (case.count as u64 + 1) * 4);
+
+    for (step, op) in case.ops.iter().enumerate() {
+        match op {
+            Op::Spawn => {
+                if pool.is_complete() {
+                    labels.add("nts-spawn-skipped-complete");
+                    continue;
+                }
+                spawn_rounds += 1;
+                let ex_before = server.accepted();
+                match tokio::time::timeout(round_limit, pool.try_spawn(&tx)).await {
+                    Ok(Ok(())) => {}
+                    Ok(Err(e)) => return Outcome::fail("nts-pool/try-spawn-error", format!("step {step}: {e}")),
+                    Err(_) => {
+                        return Outcome::fail(
+                            "nts-pool/try-spawn-stuck",
+                            format!("step {step}: try_spawn did not return within {round_limit:?} of virtual time"),
+                        );
+                    }
+                }
+                let mut new: Vec<(ClockId, SocketAddr)> = Vec::new();
+                while let Ok(ev) = rx.try_recv() {
+                    let sh::SpawnAction::Create(sh::SourceCreateParameters::Ntp(p)) = ev.action else {
+                        return Outcome::fail("nts-pool/non-ntp-create", format!("step {step}: unexpected action"));
+                    };
+                    if p.nts.is_none() {
+                        return Outcome::fail("nts-pool/source-without-nts-data", format!("step {step}: source {} has no NTS data", p.addr));
+                    }
+                    new.push((p.id, p.addr));
+                }
+                let total_after = drained.fetch_add(new.len(), Ordering::SeqCst) + new.len();
+                // attribution: exchange j of this round produced a source iff the create counter moved
+                // between its accept and the next accept (or the end of the round)
+                let log = server.log();
+                let round = &log[ex_before.min(log.len())..];
+                let mut names: Vec<String> = Vec::new();
+                for (j, ex) in round.iter().enumerate() {
+                    let next = round.get(j + 1).map(|n| n.probe).unwrap_or(total_after);
+                    match &ex.reply {
+                        Reply::Responded { server: s, .. } => {
+                            if next == ex.probe + 1 {
+                                names.push(s.clone().unwrap_or_else(|| w_ntsked::KE_HOST.to_string()));
+                            }
+                        }
+                        Reply::Error(_) => labels.add("ke-error-record"),
+                        Reply::Stalled => labels.add("ke-stall"),
+                        Reply::ClosedAfterRequest | Reply::DroppedTcp => labels.add("ke-connection-closed"),
+                        Reply::HandshakeFailed | Reply::BadRequest | Reply::Pending => labels.add("ke-handshake-failed"),
+                    }
+                    labels.add_if(!ex.denied.is_empty(), "client-sent-denied-names");
+                    if next > ex.probe + 1 {
+                        return Outcome::fail(
+                            "nts-pool/several-sources-from-one-exchange",
+                            format!("step {step}: {} sources were created from a single key exchange", next - ex.probe),
+                        );
+                    }
+                }
+                labels.add_if(round.is_empty(), "round-without-exchange");
+                labels.add_if(round.len() > new.len(), "exchange-without-source");
+                let attributed = names.len() == new.len();
+                for (i, (id, addr)) in new.into_iter().enumerate() {
+                    created += 1;
+                    if removed_any {
+                        created_after_removal += 1;
+                    }
+                    active.push(NtsActive { id, addr, name: if attributed { Some(names[i].clone()) } else { None } });
+                }
+            }
+            Op::Remove { which, reason: r } => {
+                if active.is_empty() {
+                    continue;
+                }
+                let a = active.remove(idx(*which, active.len()));
+                if let Err(e) = pool.handle_source_removed(sh::SourceRemovedEvent { id: a.id, reason: reason(*r) }).await {
+                    return Outcome::fail("nts-pool/handle-removed-error", format!("step {step}: {e}"));
+                }
+                removed_any = true;
+            }
+            Op::RemoveAll { newest_first, reason: r } => {
+                while !active.is_empty() {
+                    let a = if *newest_first { active.pop().unwrap() } else { active.remove(0) };
+                    if let Err(e) = pool.handle_source_removed(sh::SourceRemovedEvent { id: a.id, reason: reason(*r) }).await {
+                        return Outcome::fail("nts-pool/handle-removed-error", format!("step {step}: {e}"));
+                    }
+                    removed_any = true;
+                }
+            }
+        }
+
+        // ---- oracle: invariants of the active set after every step (an NTS pool has no ignore list)
+        if active.len() > case.count {
+            return Outcome::fail(
+                "nts-pool/more-active-than-count",
+                format!("step {step}: {} active sources, count {}", active.len(), case.count),
+            );
+        }
+        for (i, a) in active.iter().enumerate() {
+            if let Some(b) = active[..i].iter().find(|b| b.addr == a.addr) {
+                let kind = match (&a.name, &b.name) {
+                    (Some(x), Some(y)) if x == y => "same-name",
+                    (Some(_), Some(_)) => "distinct-names",
+                    _ => "names-unknown",
+                };
+                return Outcome::fail(
+                    format!("nts-pool/duplicate-active-address/{kind}"),
+                    format!(
+                        "step {step}: two active sources for {} (KE server names {:?} and {:?}; active: {:?})",
+                        a.addr,
+                        b.name,
+                        a.name,
+                        active.iter().map(|x| x.addr).collect::<Vec<_>>()
+                    ),
+                );
+            }
+        }
+        labels.add_if(active.len() == case.count, "nts-pool-full");
+    }
+
+    labels.add_if(created_after_removal > 0, "nts-refill-after-removal");
+    labels.add_if(spawn_rounds == 0, "nts-no-spawn-round");
+    labels.add_if(server.accepted() >= 2, "multi-exchange");
+    labels.add_if(created == 0 && spawn_rounds > 0, "nts-never-created");
     let nontrivial = created >= 2 && created_after_removal >= 1;
     Outcome::pass(nontrivial).labels(labels.0)
 }
